@@ -80,7 +80,7 @@ func main() {
 	if bad {
 		os.Exit(2)
 	}
-	nY, nM, nR := 0, 0, 0
+	nY, nM, nR, nA := 0, 0, 0, 0
 	for _, p := range pkgs {
 		if strings.HasSuffix(p.PkgPath, "/verifsim") {
 			continue
@@ -110,7 +110,14 @@ func main() {
 				}
 			}
 			usesSync := ""
+			noWrap := map[*ast.CallExpr]bool{} // the call of a go / defer statement is not evaluated where it stands
 			ast.Inspect(f, func(n ast.Node) bool {
+				switch x := n.(type) {
+				case *ast.GoStmt:
+					noWrap[x.Call] = true
+				case *ast.DeferStmt:
+					noWrap[x.Call] = true
+				}
 				switch x := n.(type) {
 				case *ast.SelectorExpr:
 					if id, ok := x.X.(*ast.Ident); ok {
@@ -142,6 +149,24 @@ func main() {
 					}
 					if !in {
 						return true
+					}
+				}
+				// a value-returning call into sync/atomic, wherever it stands in an
+				// expression, is followed by a preemption point: what is computed from
+				// an atomic's value and what is done with it are separate steps even
+				// inside one statement (gauge.Set(float64(n.Add(1))))
+				if ce, ok := n.(*ast.CallExpr); ok && !noWrap[ce] {
+					if se, ok := ce.Fun.(*ast.SelectorExpr); ok {
+						if fn, ok := p.TypesInfo.Uses[se.Sel].(*types.Func); ok && fn.Pkg() != nil && fn.Pkg().Path() == "sync/atomic" {
+							if tv, ok := p.TypesInfo.Types[ce]; ok && tv.IsValue() {
+								if _, tuple := tv.Type.(*types.Tuple); !tuple {
+									pos := p.Fset.Position(ce.Pos())
+									add(ce.Pos(), "verifsim.YieldVal(", 0)
+									add(ce.End(), fmt.Sprintf(", %q)", fmt.Sprintf("%s:%d:atomic", base, pos.Line)), 0)
+									nA++
+								}
+							}
+						}
 					}
 				}
 				var list []ast.Stmt
@@ -199,5 +224,5 @@ func main() {
 			}
 		}
 	}
-	fmt.Printf("instrument: %d yields, %d mutex types, %d map ranges\n", nY, nM, nR)
+	fmt.Printf("instrument: %d yields, %d mutex types, %d map ranges, %d atomic results\n", nY, nM, nR, nA)
 }
